@@ -240,13 +240,13 @@ def run(chk):
     numeric_variants(chk, "K1")
     numeric_variants(chk, "K2")
     chk.configs.append("K2")
+    numeric_variants(chk, "K3")
     if not quick:
         run_rules_under(chk, "K2", VALUE_RULES_ALL + ["C01"])
         run_rules_under(chk, "K3", [r for r in VALUE_RULES_ALL if r not in NO_ALLOC_SKIP and r not in ("C08", "C13", "C09", "C03")] )
         chk.configs.append("K3")
         checks_off(chk, "K3")
         checks_off(chk, "K5")
-        numeric_variants(chk, "K3")
         p6 = load_config("K6")
         chk.configs.append("K6")
         chk.obligation("O:release-profile", "dim_check_debug without debug_assertions compiles checking out")
